@@ -27,6 +27,7 @@
 
 
 #include "XObjectFactory.hpp"
+#include "XPathCharacters.hpp"
 
 
 
@@ -77,6 +78,71 @@ FunctionTranslate::execute(
     // terminating 0.
     theString.reserve(theFirstStringLength + 1);
 
+    const XalanDOMChar* const   theFirstChars = theFirstString.c_str();
+    const XalanDOMChar* const   theSecondChars = theSecondString.c_str();
+    const XalanDOMChar* const   theThirdChars = theThirdString.c_str();
+
+    if (XPathCharacters::countPairs(theFirstChars, theFirstStringLength) != 0 ||
+        XPathCharacters::countPairs(theSecondChars, theSecondStringLength) != 0 ||
+        XPathCharacters::countPairs(theThirdChars, theThirdStringLength) != 0)
+    {
+        // translate() maps characters, and a surrogate pair is one
+        // character: the N-th character of the second string is replaced
+        // by the N-th character of the third string.
+        XalanDOMString::size_type   theUnits = 0;
+
+        for (XalanDOMString::size_type i = 0; i < theFirstStringLength; i += theUnits)
+        {
+            theUnits = XPathCharacters::unitsOfFirst(theFirstChars + i, theFirstStringLength - i);
+
+            // Look for the character in the second string. j is its
+            // offset in code units, theIndex its position in characters.
+            XalanDOMString::size_type   j = 0;
+            XalanDOMString::size_type   theIndex = 0;
+
+            while (j < theSecondStringLength)
+            {
+                const XalanDOMString::size_type     theCurrentUnits =
+                    XPathCharacters::unitsOfFirst(theSecondChars + j, theSecondStringLength - j);
+
+                if (theCurrentUnits == theUnits &&
+                    theSecondChars[j] == theFirstChars[i] &&
+                    (theUnits == 1 || theSecondChars[j + 1] == theFirstChars[i + 1]))
+                {
+                    break;
+                }
+
+                j += theCurrentUnits;
+                ++theIndex;
+            }
+
+            if (j >= theSecondStringLength)
+            {
+                // Didn't find the character in the second string, so it
+                // is not translated.
+                theString.append(theFirstChars + i, theUnits);
+            }
+            else
+            {
+                const XalanDOMString::size_type     theOffset =
+                    XPathCharacters::unitsOf(theThirdChars, theThirdStringLength, theIndex);
+
+                if (theOffset < theThirdStringLength)
+                {
+                    // OK, there's a corresponding character in the
+                    // third string, so do the translation...
+                    theString.append(
+                        theThirdChars + theOffset,
+                        XPathCharacters::unitsOfFirst(theThirdChars + theOffset, theThirdStringLength - theOffset));
+                }
+                // else the character is removed.
+            }
+        }
+
+        return executionContext.getXObjectFactory().createString(theResult);
+    }
+
+    // Every character is one code unit.
     for (XalanDOMString::size_type i = 0; i < theFirstStringLength; i++)
     {
         const XalanDOMChar                  theCurrentChar = theFirstString[i];
